@@ -782,7 +782,7 @@ class XsdComplexType(XsdType, ValidationMixin[Union[ElementType, str, bytes], An
             xsd_type = self.maps.any_type
 
         xsd_element = self.builders.create_element(
-            name, self.schema, xsd_type, form='unqualified'
+            name, self.schema, xsd_type, nillable='true', form='unqualified'
         )
         xsd_element.type = xsd_type
 
